@@ -378,14 +378,14 @@ def first_difference(o):
 
 
 def explain(ra, rb):
+    if ra.get("mods") != rb.get("mods"):
+        return f"module names/order: {ra.get('mods')} vs {rb.get('mods')}"
     for xa, xb in zip(ra.get("order", []), rb.get("order", [])):
         if xa != xb:
             return f"connections of instance {xa[1]} in module {xa[0]}: {xa[2]} vs {xb[2]}"
     for xa, xb in zip(ra.get("sigs", []), rb.get("sigs", [])):
         if xa != xb:
             return f"signals of module {xa[0]}: {xa[1]} vs {xb[1]}"
-    if ra.get("mods") != rb.get("mods"):
-        return f"module names/order: {ra.get('mods')} vs {rb.get('mods')}"
     return "same instance/signal/module order; bytes differ elsewhere"
 
 
